@@ -29,6 +29,7 @@
                                    run_feature_group / add_feature_group_step      mk_step, steps_of_group, raw_plan
                                    add_joinstep / add_tfs                          add nothing in the fragment: tfs_needed
                                    _validate_required_uuids_are_produced           validate_A
+                                   _validate_steps_do_not_wait_in_a_cycle          runsim, runsim_accepts   (/repo 12fe10c)
    step.uuid is uuid4(): the model numbers the steps by their position in the plan (the exporter does the same).
 
    Python sets and dicts are lists in insertion order.  Every place where the code ITERATES a set whose order can reach
@@ -227,14 +228,50 @@ Definition tfs_needed (g : fgraph) (cl : amap) (s : step) : bool :=
     let pp := flat_map (fun p => aget0 p cl) parents in
     existsb (fun p => negb (mem p pp) && negb (Nat.eqb (cfw_of g a) (cfw_of g p))) parents
   end.
-(* _validate_required_uuids_are_produced *)
+(* _validate_required_uuids_are_produced: every required uuid is produced by some step *)
 Definition validate_A (p : plan) : bool := forallb (fun s => subset (req s) (all_uuids p)) p.
 
-Inductive presult := Planned (p : plan) | Rejected | OutsideFragment.
+(* _validate_steps_do_not_wait_in_a_cycle (called at the end of _validate_required_uuids_are_produced since 12fe10c):
+     finished = set(); remaining = list(plan); progress = True
+     while remaining and progress:
+         ready = [step for step in remaining if set(step.required_uuids) - step.get_uuids() <= finished]
+         progress = bool(ready)
+         for step in ready: finished.update(step.get_uuids())
+         remaining = [step for step in remaining if id(step) not in ready_ids]
+     if remaining: raise ValueError("... wait for each other in a cycle ...")
+   NOTE the code subtracts the step's OWN uuids from its requirements; ExecutionOrchestrator._can_run_step does not
+   (Model/Orch.v visit: subset (req s) finished).  runsim returns the steps left over; fuel = number of steps (every round
+   with progress removes at least one step). *)
+Definition runsim_ready (finished : list nat) (s : step) : bool := subset (remove_all (uuids s) (req s)) finished.
+Fixpoint runsim (fuel : nat) (remaining : plan) (finished : list nat) : plan :=
+  match fuel with
+  | 0 => remaining
+  | S f =>
+    match remaining with
+    | [] => []
+    | _ :: _ =>
+      match filter (runsim_ready finished) remaining with
+      | [] => remaining
+      | ready => runsim f (filter (fun s => negb (runsim_ready finished s)) remaining) (finished ++ flat_map uuids ready)
+      end
+    end
+  end.
+Definition runsim_accepts (p : plan) : bool := match runsim (List.length p) p [] with [] => true | _ :: _ => false end.
+
+(* the structural part of wf_plan (everything except the order) and the side condition under which the simulation and
+   the orchestrator agree: no step requires one of its own uuids *)
+Definition wf_struct (p : plan) : bool :=
+  forallb (fun s => match uuids s with [] => false | _ => true end) p
+  && nodupb (map sid p) && nodupb (all_uuids p)
+  && forallb (fun s => forallb (produced p) (req s)) p.
+Definition no_self_req (p : plan) : bool := forallb (fun s => disjoint (req s) (uuids s)) p.
+
+Inductive presult := Planned (p : plan) | RejectedIncomplete | RejectedCycle | OutsideFragment.
 Definition prepare_A (ord : oparam) (g : fgraph) : presult :=
   let p := plan_of ord g in
   if existsb (tfs_needed g (p2c_of g)) p then OutsideFragment
-  else if validate_A p then Planned p else Rejected.
+  else if negb (validate_A p) then RejectedIncomplete
+  else if runsim_accepts p then Planned p else RejectedCycle.
 
 (* ---------- the fragment, decidably ---------- *)
 Definition strictb (g : fgraph) : bool :=
@@ -337,8 +374,12 @@ Fixpoint plan_matches (cl : amap) (p : plan) (o : list ostep) : bool :=
 
 (* one observed preparation: the request (definitions, requested names), the engine's graph in its own orders, the
    DFS queue, parent_to_children_mapping (non-empty entries) and the plan in plan order *)
+(* pc_outcome: what the real prepare did: 0 = accepted, 1 = ValueError 'Execution plan is incomplete', 2 = ValueError
+   '... wait for each other in a cycle'; the steps are observed in all three cases *)
 Record pcase := { pc_defs : list fdef; pc_req : list nat; pc_g : fgraph; pc_queue : list nat; pc_p2c : amap;
-                  pc_plan : list ostep }.
+                  pc_plan : list ostep; pc_outcome : nat }.
+Definition outcome_code (r : presult) : nat :=
+  match r with Planned _ => 0 | RejectedIncomplete => 1 | RejectedCycle => 2 | OutsideFragment => 3 end.
 Definition chk_request (c : pcase) : bool :=
   defs_okb (pc_defs c) (pc_req c) && graph_equivb (request_graph (pc_defs c) (pc_req c)) (pc_g c).
 Definition chk_graph (c : pcase) : bool := graph_okb (pc_g c) && strictb (pc_g c).
@@ -347,7 +388,7 @@ Definition chk_closure (c : pcase) : bool :=
   amap_eqb (filter (fun kv => match snd kv with [] => false | _ => true end) (p2c_of (pc_g c))) (pc_p2c c).
 Definition chk_plan (c : pcase) : bool :=
   plan_matches (p2c_of (pc_g c)) (plan_of ord_id (pc_g c)) (pc_plan c)
-  && match prepare_A ord_id (pc_g c) with Planned _ => true | _ => false end.
+  && Nat.eqb (outcome_code (prepare_A ord_id (pc_g c))) (pc_outcome c).
 Definition chk_planner (c : pcase) : bool :=
   chk_request c && chk_graph c && chk_queue c && chk_closure c && chk_plan c.
 (* the plan computed from the request alone (canonical orders) has the same steps up to order *)
@@ -358,6 +399,13 @@ Definition chk_request_plan (c : pcase) : bool :=
   Nat.eqb (List.length p) (List.length (pc_plan c)) && forallb (step_in (p2c_of g) (pc_plan c)) p.
 (* classification *)
 Definition model_wf (c : pcase) : bool := wf_plan_auto (plan_of ord_id (pc_g c)).
+(* the model's accept / reject decision agrees with well-formedness of the plan (theorem prepare_accepts_iff) *)
+Definition model_accept_iff_wf (c : pcase) : bool :=
+  Bool.eqb (Nat.eqb (outcome_code (prepare_A ord_id (pc_g c))) 0) (wf_plan_auto (plan_of ord_id (pc_g c))).
+Definition model_accepted (c : pcase) : bool := Nat.eqb (outcome_code (prepare_A ord_id (pc_g c))) 0.
+(* the request-level plan gives the same decision *)
+Definition chk_request_outcome (c : pcase) : bool :=
+  Nat.eqb (outcome_code (prepare_A ord_id (request_graph (pc_defs c) (pc_req c)))) (pc_outcome c).
 Definition model_group_dag (c : pcase) : bool := group_dagb (pc_g c).
 Definition model_defs_group_dag (c : pcase) : bool := defs_group_dagb (pc_defs c).
 Definition model_req_covers (c : pcase) : bool :=
